@@ -38,6 +38,7 @@ type cfg struct {
 	MaxReq   int
 	Elapsed  time.Duration // -1 = retries disabled
 	DynHdr   bool
+	Emit       bool // the forwarder's metrics goroutine emits (and resets its gauges) at any point of two flushes whose posts take different times (emit.go)
 	Event      bool // an event is dispatched too, and its dispatcher then waits for events (the shutdown sequence)
 	BrokenBody bool // upstream outcome 1 is "202 Accepted, but the response body cannot be read to its end" instead of a 503
 	CustomHdr  bool // a static custom header named like the first dynamic header (the dynamic one is then ignored, the others stay)
@@ -57,7 +58,7 @@ func (c cfg) per() int {
 }
 
 func (c cfg) String() string {
-	return fmt.Sprintf("D%d-B%d-s%d-m%d-r%d-el%v-dyn%v%v-f%d-bad%v-t%d-z%v-p%d", c.D, c.Batches, c.Slots, c.Merge, c.MaxReq, c.Elapsed, c.DynHdr, c.Dyn2, c.Failures, c.BadUTF8, c.Ticks, c.Compress, c.PerBatch) + map[bool]string{true: "-event"}[c.Event] + map[bool]string{true: "-brokenbody"}[c.BrokenBody] + map[bool]string{true: "-customhdr"}[c.CustomHdr]
+	return fmt.Sprintf("D%d-B%d-s%d-m%d-r%d-el%v-dyn%v%v-f%d-bad%v-t%d-z%v-p%d", c.D, c.Batches, c.Slots, c.Merge, c.MaxReq, c.Elapsed, c.DynHdr, c.Dyn2, c.Failures, c.BadUTF8, c.Ticks, c.Compress, c.PerBatch) + map[bool]string{true: "-event"}[c.Event] + map[bool]string{true: "-brokenbody"}[c.BrokenBody] + map[bool]string{true: "-customhdr"}[c.CustomHdr] + map[bool]string{true: "-emit"}[c.Emit]
 }
 
 type attempt struct {
@@ -81,6 +82,7 @@ type run struct {
 	viol      string
 	violKey   string
 	obj       *int
+	delays    map[string]time.Duration // Emit configuration: how long the upstream takes to answer a body with that datapoint (no environment choice)
 }
 
 func (r *run) fail(k, m string) {
@@ -127,7 +129,15 @@ func (u upstream) RoundTrip(req *http.Request) (*http.Response, error) {
 	sort.Strings(names)
 	vsched.Access(u.r.obj, true, "upstream-attempt")
 	o := 0
-	if u.r.failsLeft > 0 && len(parts) > 0 {
+	if u.r.delays != nil {
+		for _, n := range names {
+			if d := u.r.delays[n]; d > 0 {
+				// a slow response: the answer comes when the (mock) clock has moved on
+				t := vsched.EnvGet("clock").(clock.Clock).NewTimer(d)
+				vsched.Recv(t.C)
+			}
+		}
+	} else if u.r.failsLeft > 0 && len(parts) > 0 {
 		o = vsched.Choose(3, "upstream")
 		if o != 0 {
 			u.r.failsLeft--
@@ -154,6 +164,9 @@ func (brokenReader) Read([]byte) (int, error) { return 0, errors.New("connection
 func dpName(d, b, k int) string { return fmt.Sprintf("d%db%dk%d", d, b, k) }
 
 func body(c cfg, r *run) func(*vsched.Exec) {
+	if c.Emit {
+		return emitBody(c, r)
+	}
 	return func(x *vsched.Exec) {
 		*r = run{c: c, failsLeft: c.Failures, returned: make([]int, c.D*c.Batches*c.per()), obj: new(int)}
 		ctx, mock := fx.NewClock(context.Background())
@@ -445,6 +458,9 @@ func forwarderFromConfig(pool *transport.TransportPool, fc flush.Coordinator, kv
 }
 
 func configs() []cfg {
+	if os.Getenv("C15_ONLY") == "emit" {
+		return []cfg{{D: 1, Batches: 2, Slots: 1, Merge: 1, MaxReq: 1, Elapsed: 3 * time.Second, Ticks: 2, Emit: true}}
+	}
 	cs := []cfg{
 		{D: 2, Batches: 1, Slots: 1, Merge: 1, MaxReq: 1, Elapsed: 3 * time.Second, Failures: 1, Ticks: 2},
 		{D: 2, Batches: 1, Slots: 2, Merge: 2, MaxReq: 2, Elapsed: -1, Failures: 1, Ticks: 2},
@@ -455,6 +471,7 @@ func configs() []cfg {
 		{D: 1, Batches: 1, Slots: 1, Merge: 1, MaxReq: 1, Elapsed: 3 * time.Second, Failures: 0, Ticks: 1, Event: true},
 		{D: 1, Batches: 1, PerBatch: 4, Slots: 1, Merge: 1, MaxReq: 2, Elapsed: 3 * time.Second, Dyn2: true, CustomHdr: true, Failures: 0, Ticks: 1},
 		{D: 1, Batches: 2, Slots: 1, Merge: 1, MaxReq: 1, Elapsed: 3 * time.Second, Failures: 2, Ticks: 1, BrokenBody: true},
+		{D: 1, Batches: 2, Slots: 1, Merge: 1, MaxReq: 1, Elapsed: 3 * time.Second, Ticks: 2, Emit: true},
 		// two compressed bodies of one flush in flight together, one of them retried
 		{D: 1, Batches: 1, PerBatch: 2, Slots: 1, Merge: 1, MaxReq: 2, Elapsed: 3 * time.Second, DynHdr: true, Failures: 1, Ticks: 1, Compress: true},
 	}
